@@ -12,8 +12,22 @@ from .report import Check
 LEVELS = {"C16": ("exploration", True)}
 
 
+def release_caches():
+    """Drop what earlier analyses of (other copies of) the repository left in the per-function caches: the entries keep whole
+    module trees alive through the parent links of their nodes (a worker of the seed matrix grew to 4.6 GB that way)."""
+    import gc
+    from .consteval import FnEval
+    from .origin import Origin
+    from . import modconst
+    FnEval._cache.clear()
+    Origin._cache.clear()
+    modconst._CACHE.clear()
+    gc.collect()
+
+
 def analyse(pid: str, repo_root: str, tier="quick", seed=0, quiet=False) -> Check:
     mod = importlib.import_module(f"sa.props.{pid.lower()}")
+    release_caches()
     repo = Repo(repo_root)
     chk = Check(pid, tier, seed, repo_root, quiet=quiet)
     try:
